@@ -24,7 +24,7 @@ ASSUMPTIONS = ['only index and value forms used by upstream tests/docstrings are
                'reads that leave every selected row non-empty',
                'row reads are views by design, so write-through is exercised on a row fetched after the last structural change',
                'values keep the dtype of the array (no float written into an integer array)']
-REACH_EXPECTED = ['op_elem', 'op_row_same', 'op_row_newlen', 'op_introw_slice', 'op_slice2d', 'op_fancy', 'op_fancy_int', 'op_mask',
+REACH_EXPECTED = ['op_rowslice_col', 'out_of_row_write_rejected', 'op_elem', 'op_row_same', 'op_row_newlen', 'op_introw_slice', 'op_slice2d', 'op_fancy', 'op_fancy_int', 'op_mask',
                   'op_mask_empty', 'op_rowblock', 'op_append_rows', 'op_append_ra', 'op_aug_scalar', 'op_aug_ragged', 'op_binary',
                   'env_source_mutated', 'env_lengths_mutated', 'env_result_mutated', 'env_write_through', 'rect_to_ragged', 'ragged_to_rect', 'multidim_elements',
                   'out_of_row_rejected']
@@ -208,7 +208,7 @@ class Machine:
         n = len(rows)
         lens = [len(r) for r in rows]
         was_rect = len(set(lens)) == 1
-        ops1d = ('elem', 'row_same', 'row_newlen', 'introw_slice', 'slice2d', 'fancy', 'fancy_int', 'mask', 'rowblock', 'append',
+        ops1d = ('elem', 'row_same', 'row_newlen', 'introw_slice', 'slice2d', 'rowslice_col', 'fancy', 'fancy_int', 'mask', 'rowblock', 'append',
                  'aug', 'binary', 'write_through', 'elem', 'row_same')
         opsnd = ('row_same', 'row_newlen', 'append', 'aug', 'binary', 'rowblock')
         op = t.choice(ops1d if self.edim is None else opsnd)
@@ -261,6 +261,37 @@ class Machine:
             self.sut(a.__setitem__, (rs, slice(c0, c1)), v)
             for r in (rows if allrows else rows[r0:r1]):
                 r[c0:c1] = v
+        elif op == 'rowslice_col':
+            r0 = t.draw(n)
+            r1 = t.irange(r0 + 1, n)
+            sel = list(range(r0, r1))
+            minlen = min(lens[i] for i in sel)
+            if t.flag(1, 3):
+                # a column that some selected row does not have: the write must be rejected and change nothing
+                j = minlen + t.draw(2)
+                if t.flag() and max(lens[i] for i in sel) > j:
+                    pass        # some rows do have it, at least one does not
+                v = V.take(())
+                self.hist.append(('rowslice_col_out_of_row', r0, r1, j))
+                exc = self.ctx.expect_raise(a.__setitem__, (slice(r0, r1), j), v)
+                if exc is None:
+                    self.bad('out_of_row_write', 'a[%d:%d, %d] = v was accepted although a selected row has only %d elements' % (r0, r1, j, minlen))
+                self.ctx.hit('out_of_row_write_rejected')
+            else:
+                j = t.draw(minlen)
+                form = t.draw(3)
+                vals = V.take((len(sel),))
+                self.hist.append(('rowslice_col', r0, r1, j, form))
+                if form == 0:
+                    val = [[x] for x in vals]           # the form upstream's tests use
+                elif form == 1:
+                    val = vals[0]
+                    vals = np.repeat(vals[0], len(sel))
+                else:
+                    val = vals.copy()
+                self.sut(a.__setitem__, (slice(r0, r1), j if t.flag() else np.arange(j + 1)[j]), val)
+                for i, x in zip(sel, vals):
+                    rows[i][j] = x
         elif op == 'fancy':
             k = min(t.irange(1, 3), sum(lens))
             cells = []
